@@ -65,25 +65,25 @@ type EmitRec struct {
 }
 
 type PathResult struct {
-	Vec          []int64
-	Status       string // done | aborted:<kind>
-	Reason       string
-	Failures     []*Failure
-	Reached      []string
-	Obligations  int // assertions checked with a non-constant formula
-	Discharged   int
-	TrivialOK    int // assertions whose condition folded to true
-	Inconclusive []string
-	NewVecs      [][]int64
-	Decisions    int
-	Steps        int
-	Funcs        map[string]bool
-	Assumes      []string
-	Witness      map[string]uint64 // a model of the path condition (for translator validation)
-	WitChoices   map[string]int64
-	EmitEval     []string // emit log evaluated under Witness
-	Nontrivial   bool
-	EngineErr    string
+	Vec               []int64
+	Status            string // done | aborted:<kind>
+	Reason            string
+	Failures          []*Failure
+	Reached           []string
+	Obligations       int // assertions checked with a non-constant formula
+	Discharged        int
+	TrivialOK         int // assertions whose condition folded to true
+	Inconclusive      []string
+	NewVecs           [][]int64
+	Decisions         int
+	Steps             int
+	Funcs             map[string]bool
+	Assumes           []string
+	Witness           map[string]uint64 // a model of the path condition (for translator validation)
+	WitChoices        map[string]int64
+	EmitEval          []string // emit log evaluated under Witness
+	Nontrivial        bool
+	EngineErr         string
 	MapOrderDependent bool
 	UnknownBranches   int
 }
@@ -103,52 +103,59 @@ type Machine struct {
 
 	res *PathResult
 
-	steps     int
-	varCount  map[string]int
-	choices   map[string]int64
-	classes   []classDef
-	emits     []EmitRec
-	mapIDs    int
-	chanIDs   int
-	initDone  map[*ssa.Package]bool
-	pool      map[*Value][]Value
-	mutexes   map[*Value]*mutexState
-	hashCalls []hashCall
+	steps       int
+	varCount    map[string]int
+	choices     map[string]int64
+	classes     []classDef
+	emits       []EmitRec
+	mapIDs      int
+	chanIDs     int
+	initDone    map[*ssa.Package]bool
+	pool        map[*Value][]Value
+	mutexes     map[*Value]*mutexState
+	hashCalls   []hashCall
 	permuteMaps int
 
 	// threads
-	threads   []*Thread
-	cur       *Thread
-	sched     chan schedEvent
-	explore   bool
+	threads    []*Thread
+	cur        *Thread
+	sched      chan schedEvent
+	explore    bool
 	maxPreempt int
-	preempts  int
-	schedLog  []string
-	aborting  bool
-	nowCount  int
-	lastNow   *Term
-	netLog    []Value
-	known     map[string]bool // label|class entries that are known findings
+	preempts   int
+	schedLog   []string
+	aborting   bool
+	nowCount   int
+	lastNow    *Term
+	netLog     []Value
+	known      map[string]bool // label|class entries that are known findings
 
-	poolVC       map[*Value][]int
-	wgStates     map[*Value]*wgState
-	hashBuf      map[*Value][]*Term
-	atomVC       map[*Value][]int
-	tickers      map[*Value]*tickerState
-	shadow       map[*Value]*shadow
-	maxTicks     int
-	raceCheck    bool
-	raceReported bool
-	selectFork   bool
-	eventMode    *eventRecorder
-	model        map[string]uint64
-	modelMemo    map[*Term]uint64
-	noModelGuide bool
-	decided      map[*Term]bool
-	sharedLog    []*Term
-	absBuf       bool
-	absBufs      map[*Value]Str
-	udps         map[*Value]*udpState
+	poolVC        map[*Value][]int
+	wgStates      map[*Value]*wgState
+	hashBuf       map[*Value][]*Term
+	atomVC        map[*Value][]int
+	tickers       map[*Value]*tickerState
+	shadow        map[*Value]*shadow
+	maxTicks      int
+	raceCheck     bool
+	raceReported  bool
+	selectFork    bool
+	eventMode     *eventRecorder
+	model         map[string]uint64
+	modelMemo     map[*Term]uint64
+	noModelGuide  bool
+	decided       map[*Term]bool
+	sharedLog     []*Term
+	absBuf        bool
+	absBufs       map[*Value]Str
+	udps          map[*Value]*udpState
+	sinks         map[string][]*udpState
+	sinkCount     int
+	hashInjective bool
+	opaqueHash    map[string]*Term
+	schedOnly     []string
+	promVecs      map[*Value]*promVec
+	promMetrics   map[*Value]*promMetric
 }
 
 type classDef struct {
@@ -163,11 +170,11 @@ type hashCall struct {
 }
 
 type RunConfig struct {
-	MaxSteps    int
-	LoopBound   int
-	SolverMs    int
-	BranchMs    int
-	Trace       bool
+	MaxSteps     int
+	LoopBound    int
+	SolverMs     int
+	BranchMs     int
+	Trace        bool
 	CheckWitness bool
 }
 
